@@ -166,7 +166,7 @@ func genModelCase(rt *rapid.T) (ExecCase, *Path) {
 			d = MustDecode(doc.Text(), true)
 		}
 		walk, reach := GenWalk(rt, d, 3, strict, "w")
-		g.budget = 2 + g.n(9, "size")
+		g.budget = 2 + g.n(sz(9), "size")
 		var chain *Node
 		switch g.choose("shape", 35, 25, 20, 20) {
 		case 0: // walk + filter on the reached items + tail
@@ -395,7 +395,7 @@ func genStressCase(rt *rapid.T) (ExecCase, *Path) {
 		Keys: []string{"rows", "o", "ok", "arr", "pick", "n", "i", "s", "arr", "pick", "n"}, VarNames: []string{"p", "q", "n"},
 		Strs: []string{"a", "ab", "b", "x"}, Ints: []int64{0, 1, 2, 3}, Nums: []float64{0.5, 1.5}}.withDefaults()
 	g := &pgen{t: rt, c: cfg}
-	g.budget = 4 + g.n(12, "size")
+	g.budget = 4 + g.n(sz(12), "size")
 	strict := g.chance(35, "strict")
 	// $.rows[*] ? (<cond over @ with nested filters and computed subscripts>) <tail>
 	cx := gctx{inFilter: true}
